@@ -31,7 +31,13 @@ func genAttack(t *rapid.T, k int) attack {
 	a := attack{Close: rapid.SampledFrom([]string{"fin", "rst", "none"}).Draw(t, "close")}
 	id := identity{Digits: fmt.Sprintf("1570000%04d", 2000+k), V2019: rapid.Bool().Draw(t, "v")}
 	serial := uint16(1)
-	switch rapid.IntRange(0, 6).Draw(t, "class") {
+	switch rapid.IntRange(0, 7).Draw(t, "class") {
+	case 7:
+		// presents the witness's own phone number: must be refused without disturbing the witness
+		a.Class = "steal_witness_key"
+		for i := 0; i < rapid.IntRange(1, 3).Draw(t, "frames"); i++ {
+			a.Stream = append(a.Stream, frame(identity{Digits: "13800130001", V2019: rapid.Bool().Draw(t, "wv2")}, 0x0002, uint16(0x3000+i), nil)...)
+		}
 	case 0:
 		a.Class = "connect_and_close"
 	case 1:
@@ -94,6 +100,11 @@ func genAttack(t *rapid.T, k int) attack {
 func genC10(t *rapid.T) c10Case {
 	c := c10Case{Handlers: rapid.SampledFrom([]string{"", "parse_all"}).Draw(t, "handlers"), NoFilter: rapid.IntRange(0, 3).Draw(t, "nofilter") == 0}
 	c.Witness = genConv(t, identity{Digits: "13800130001", V2019: rapid.Bool().Draw(t, "wv")}, 8, !c.NoFilter, "w")
+	// the witness is an *established* session: its first message is a heartbeat that is answered before the attack starts
+	hello := request{Frames: [][]byte{frame(c.Witness.ID, 0x0002, 0x2ffe, nil)}, MsgID: 0x0002, Serials: []uint16{0x2ffe}, Kind: "reply"}
+	c.Witness.Reqs = append([]reqJSON{toJSON(hello, "")}, c.Witness.Reqs...)
+	c.Witness.Group = append([]int{1}, c.Witness.Group...)
+	c.Witness.Gap = append([]int{0}, c.Witness.Gap...)
 	n := rapid.IntRange(1, 5).Draw(t, "attacks")
 	for i := 0; i < n; i++ {
 		c.Attacks = append(c.Attacks, genAttack(t, i))
@@ -104,14 +115,28 @@ func genC10(t *rapid.T) c10Case {
 func checkC10(c c10Case, _ *kit.Collector) kit.Result {
 	res := kit.Result{}
 	sc := Scenario{Handlers: c.Handlers, NoFilter: c.NoFilter}
-	parties := len(c.Attacks) + 2
+	parties := len(c.Attacks) + 3
 	wsteps, _ := convSteps(c.Witness, false)
 	// the witness starts together with the attackers and finishes its conversation while they run
-	wsteps = append([]Step{{Op: "barrier", Barrier: "start", Parties: parties - 1}}, wsteps...)
-	wsteps = append(wsteps, Step{Op: "barrier", Barrier: "attack_over", Parties: parties}, Step{Op: "close", Mode: "fin"})
+	// dial, say hello, wait for the answer (= joined), and only then let the attackers loose
+	var pre []Step
+	for i, st := range wsteps {
+		pre = append(pre, st)
+		if st.Op == "write" {
+			pre = append(pre, Step{Op: "respond", Rules: []Rule{{Behaviour: "answer"}}}, Step{Op: "wait_frames", N: 1, DeadlineMs: 5000},
+				Step{Op: "barrier", Barrier: "start", Parties: len(c.Attacks) + 1})
+			pre = append(pre, wsteps[i+1:]...)
+			break
+		}
+	}
+	wsteps = pre
+	wsteps = append(wsteps, Step{Op: "barrier", Barrier: "attack_over", Parties: parties}, Step{Op: "barrier", Barrier: "probed", Parties: 2}, Step{Op: "close", Mode: "fin"})
+	// after the attack the platform can still command the witness (its session is intact and routed correctly)
+	sc.Actors = append(sc.Actors, Actor{Name: "platform", Kind: "platform", Steps: []Step{{Op: "barrier", Barrier: "attack_over", Parties: parties},
+		{Op: "send", Key: c.Witness.ID.key(), Cmd: 0x8104, Body: []byte{0x77}, TimeoutMs: 1500, CallID: 1}, {Op: "barrier", Barrier: "probed", Parties: 2}}})
 	sc.Actors = append(sc.Actors, Actor{Name: "witness", Kind: "terminal", Steps: wsteps})
 	for i, a := range c.Attacks {
-		steps := []Step{{Op: "barrier", Barrier: "start", Parties: parties - 1}, {Op: "dial"}}
+		steps := []Step{{Op: "barrier", Barrier: "start", Parties: len(c.Attacks) + 1}, {Op: "dial"}}
 		prev := 0
 		for _, cut := range append(append([]int{}, a.Cuts...), len(a.Stream)) {
 			if cut > prev {
@@ -144,7 +169,21 @@ func checkC10(c c10Case, _ *kit.Collector) kit.Result {
 			return res
 		}
 	}
-	if _, err := judgeConversation("witness", c.Witness, h, 0); err != nil {
+	probeOK := false
+	for _, e := range h.Events {
+		if e.Kind == "call_result" && e.Call == 1 {
+			probeOK = e.Flag && e.Err == ""
+			if !probeOK {
+				res.Err = fmt.Errorf("SOFT after the attack the established witness session cannot be commanded any more: %q", e.Err)
+				return res
+			}
+		}
+	}
+	if !probeOK {
+		res.Err = fmt.Errorf("SOFT after the attack the command to the witness never returned")
+		return res
+	}
+	if _, err := judgeConversationFiltered("witness", c.Witness, h); err != nil {
 		res.Err = kit.Fail("the witness session was disturbed: %v", err)
 		if len(err.Error()) > 4 && err.Error()[:4] == "SOFT" {
 			res.Err = fmt.Errorf("SOFT witness: %v", err)
@@ -179,4 +218,19 @@ func checkC10(c c10Case, _ *kit.Collector) kit.Result {
 
 func TestC10Socket(t *testing.T) {
 	kit.Run(t, kit.Prop[c10Case]{ID: "C10", Part: "TestC10Socket", Gen: genC10, Check: softRetry(checkC10)})
+}
+
+// judgeConversationFiltered judges a conversation whose terminal also received platform commands: only the
+// reply frames (0x8001/0x8100/0x8800/0x9212) are part of the conversation.
+func judgeConversationFiltered(name string, c convTerminal, h History) ([]string, error) {
+	var evs []Event
+	for _, e := range h.Events {
+		if e.Actor == name && e.Kind == "recv" {
+			if f, why := ref.Validate(e.Data); why == "" && !replyIDs[f.ID] {
+				continue
+			}
+		}
+		evs = append(evs, e)
+	}
+	return judgeConversation(name, c, History{Events: evs, Exit: h.Exit}, 0)
 }
